@@ -23,7 +23,7 @@ func isReleaseCall(cc *ssa.CallCommon) (string, bool) {
 
 func runC06(c *Ctx) {
 	p, r := c.P, c.R
-	r.Explanation = "Decides the pairing discipline between pipeline-set mutations and reference-count updates, each a necessary condition of 'in use iff some registered pipeline lists the node': reference counts are written, and graphMap.Store/Delete called, only in Broker methods under Broker.lock held for writing; every path through a Store increments once per element of the stored pipeline's flattened node set in a full loop before the successful return; every path through a Delete, or through a Store that may replace an entry, either established that no such pipeline exists or releases exactly the ids obtained from graphMap.Nodes for the same key on the same map; increments and releases iterate the same abstraction (the flattened set of the linked list); the release operation's full decision table over count in {0,1,>=2} x force (refuse without effect / unregister and hand back for closing / decrement); every node handed back for closing is closed exactly once, outside the lock, on every path; RemovePipelineAndNodes returns true after the delete. The invariant over arbitrary call histories as such is not decided; these are its inductive-step obligations. C06.registry: the registry only gains fresh records around caller-supplied nodes; C06.flatten: the flattened set contains every linked node; C06.carry: an overwrite decides the count carry-over from the existing entry's policy."
+	r.Explanation = "Decides the pairing discipline between pipeline-set mutations and reference-count updates, each a necessary condition of 'in use iff some registered pipeline lists the node': reference counts are written, and graphMap.Store/Delete called, only in Broker methods under Broker.lock held for writing; every path through a Store increments once per element of the stored pipeline's flattened node set in a full loop before the successful return; every path through a Delete, or through a Store that may replace an entry, either established that no such pipeline exists or releases exactly the ids obtained from graphMap.Nodes for the same key on the same map; increments and releases iterate the same abstraction (the flattened set of the linked list); the release operation's full decision table over count in {0,1,>=2} x force (refuse without effect / unregister and hand back for closing / decrement); every node handed back for closing is closed exactly once, outside the lock, on every path; RemovePipelineAndNodes returns true after the delete. The invariant over arbitrary call histories as such is not decided; these are its inductive-step obligations. C06.registry: the registry only gains fresh records around caller-supplied nodes; C06.flatten: the flattened set contains every linked node; C06.carry: an overwrite decides the count carry-over from the existing entry's policy. C06.close gives-up-only-at-plain-node: NodeController.Close returns without calling a Close only for a node found to be neither a Closer nor a NodeUnwrapper."
 	r.NotDecided = []string{"the reference-count invariant over arbitrary histories (a reachability question over broker states)", "that user Close implementations are idempotent"}
 	tb := p.NewTerms(nil)
 	must := c.MustLocks()
@@ -283,7 +283,27 @@ func runC06(c *Ctx) {
 
 	// --- C06.domain: graphMap.Nodes returns the keys of flatten(rootNode)
 	if nodes := c.Fn("C06.domain", PkgRoot, "graphMap", "Nodes"); nodes != nil {
-		fl := callsTo(nodes, func(n string, cc *ssa.CallCommon) bool { return n == "(*eventlogger.linkedNode).flatten" })
+		isFlatten := func(n string, cc *ssa.CallCommon) bool { return n == "(*eventlogger.linkedNode).flatten" }
+		fl := callsTo(nodes, isFlatten)
+		if len(fl) == 0 {
+			// the key collection may live in a helper whose result Nodes returns as it is
+			for _, ci := range callsTo(nodes, func(n string, cc *ssa.CallCommon) bool {
+				sc := cc.StaticCallee()
+				return sc != nil && sc.Blocks != nil && PkgPathOf(sc) == PkgRoot && len(callsTo(sc, isFlatten)) == 1
+			}) {
+				returned := false
+				for _, ret := range Returns(nodes) {
+					if rv := RetVals(ret); len(rv) > 0 && rv[0] == ci.(ssa.Value) {
+						returned = true
+					}
+				}
+				if returned {
+					nodes = ci.Common().StaticCallee()
+					fl = callsTo(nodes, isFlatten)
+					break
+				}
+			}
+		}
 		ok := len(fl) == 1
 		if ok {
 			recv := tb.Of(fl[0].Common().Args[0])
@@ -299,6 +319,25 @@ func runC06(c *Ctx) {
 								filled = true
 							}
 						}
+					}
+				}
+			})
+			// ... or collected with slices.Collect(maps.Keys(flatten(..))): every key, each once
+			eachInstr(nodes, func(in ssa.Instruction) {
+				col, isCall := in.(*ssa.Call)
+				if !isCall || col.Call.StaticCallee() == nil || !strings.HasPrefix(col.Call.StaticCallee().String(), "slices.Collect[") || len(col.Call.Args) != 1 {
+					return
+				}
+				keys, isCall := col.Call.Args[0].(*ssa.Call)
+				if !isCall || keys.Call.StaticCallee() == nil || !strings.HasPrefix(keys.Call.StaticCallee().String(), "maps.Keys[") || len(keys.Call.Args) != 1 {
+					return
+				}
+				if keys.Call.Args[0] != fl[0].(ssa.Value) {
+					return
+				}
+				for _, ret := range Returns(nodes) {
+					if rv := RetVals(ret); len(rv) > 0 && rv[0] == ssa.Value(col) {
+						filled = true
 					}
 				}
 			})
@@ -816,8 +855,25 @@ func (c *Ctx) rulePolicySource(rule string) {
 	p, r := c.P, c.R
 	tb := p.NewTerms(nil)
 	if fn := c.Fn(rule, PkgRoot, "Broker", "RegisterPipeline"); fn != nil {
+		// the locked body may live in a helper that RegisterPipeline calls with its definition: decide there
+		isRange := func(n string, cc *ssa.CallCommon) bool { return n == "(*eventlogger.graphMap).Range" }
+		if len(callsTo(fn, isRange)) == 0 {
+			for _, ci := range callsTo(fn, func(n string, cc *ssa.CallCommon) bool {
+				sc := cc.StaticCallee()
+				return sc != nil && sc.Blocks != nil && PkgPathOf(sc) == PkgRoot && len(callsTo(sc, isRange)) == 1
+			}) {
+				sc := ci.Common().StaticCallee()
+				sameArgs := len(sc.Params) >= 2 && len(fn.Params) >= 2 && sc.Params[0].Name() == fn.Params[0].Name() && sc.Params[1].Name() == fn.Params[1].Name() &&
+					ci.Common().Args[0] == ssa.Value(fn.Params[0])
+				if sameArgs {
+					r.Notes = append(r.Notes, rule+": the body of RegisterPipeline is decided in its helper "+p.ShortFn(sc))
+					fn = sc
+					break
+				}
+			}
+		}
 		// the policy variable: a cell assigned in the Range callback from the existing entry with the same id
-		rc := callsTo(fn, func(n string, cc *ssa.CallCommon) bool { return n == "(*eventlogger.graphMap).Range" })
+		rc := callsTo(fn, isRange)
 		var polCell ssa.Value
 		okCb := false
 		if len(rc) == 1 {
